@@ -1,2 +1,4 @@
 -- root of the SmVerif library: everything that `lake build` (default target) must check
+import SmVerif.Props.C01
+import SmVerif.Props.C02
 import SmVerif.Props.C12
